@@ -15,7 +15,7 @@ use serde::{Deserialize, Serialize};
 use super::reference::{encode_tlv, tu64_min, with_length_prefix, H32};
 use super::rng::Rng;
 
-pub const NH: usize = 4;
+pub const NH: usize = 8;
 
 #[derive(Clone, Copy, Debug, PartialEq, Eq)]
 pub enum InvKind {
@@ -93,7 +93,16 @@ fn build_pool() -> Pool {
     let local_pubkey = PublicKey::from_secret_key(&secp, &local_sk);
     let recipient_pubkey = PublicKey::from_secret_key(&secp, &recipient_sk);
     let other_pubkey = PublicKey::from_secret_key(&secp, &other_sk);
-    let fixed_amounts: [u64; NH] = [1_000_000, 1_000, 250_000_000, 4_000_000_000_000];
+    let fixed_amounts: [u64; NH] = [
+        1_000_000,
+        1_000,
+        250_000_000,
+        4_000_000_000_000,
+        2_000_000,
+        50_000,
+        777_000,
+        30_000_000,
+    ];
     let mut preimages = Vec::new();
     let mut hashes = Vec::new();
     for i in 0..NH {
@@ -245,6 +254,15 @@ pub struct RunCfg {
     pub recipient_coop: u32,
     /// freeze hash 0 at some point (C14)
     pub freeze: bool,
+    /// number of hashes (0..n) that get frozen (0 = one)
+    #[serde(default)]
+    pub freeze_n: u8,
+    /// the freeze only stalls the outgoing payment (parts, pay command)
+    #[serde(default)]
+    pub freeze_soft: bool,
+    /// crash once all hashes to be stalled are stalled and another payment is in flight
+    #[serde(default)]
+    pub crash_when_all_stalled: bool,
     /// What runs inside the simulated process: "process" (real main()),
     /// "wait_payment", "pay" (PayPaymentProvider directly), "watcher" (BlockWatcher).
     #[serde(default = "default_mode")]
@@ -274,6 +292,14 @@ pub struct RunCfg {
     /// sees a code-less RPC error although the command ran.
     #[serde(default = "yes")]
     pub pay_placeholder: bool,
+    /// injected RPC errors carry messages of several KiB of mixed-width UTF-8
+    #[serde(default)]
+    pub big_messages: bool,
+    /// shape of the JSON-RPC ids of hook calls: 0 "cln:htlc_accepted#n",
+    /// 1 small integer, 2 integer above i64::MAX, 3 string with quotes,
+    /// backslash and non-ASCII characters
+    #[serde(default)]
+    pub id_style: u8,
     /// C19: option values sent as raw JSON text (strings, floats, integers
     /// beyond i64) - all of them must make the plugin refuse to start.
     #[serde(default)]
@@ -364,12 +390,17 @@ pub fn base_cfg(rng: &mut Rng, profile: &str) -> RunCfg {
         backpressure: false,
         recipient_coop: 800,
         freeze: false,
+        freeze_n: 0,
+        freeze_soft: false,
+        crash_when_all_stalled: false,
         mode: "process".into(),
         f_stall: 0,
         f_long_downtime: 0,
         f_yield: 0,
         f_multi: 0,
         pay_placeholder: true,
+        big_messages: false,
+        id_style: 0,
         raw_json_opts: None,
         pipeline_init: false,
         raw_opts: None,
@@ -412,14 +443,57 @@ pub enum AmtField {
 }
 
 pub fn metadata_value(invoice_bytes: &[u8], amt: AmtField, extra_unknown: bool) -> Vec<u8> {
-    let mut recs: Vec<(u64, Vec<u8>)> = vec![(33001, invoice_bytes.to_vec())];
-    match amt {
-        AmtField::Absent => {}
-        AmtField::Value(v) => recs.push((33003, tu64_min(v))),
-        AmtField::RawLen(n) => recs.push((33003, vec![if n == 0 { 0 } else { 0x01 }; n])),
-    }
-    if extra_unknown {
-        recs.push((33005, vec![0xde, 0xad]));
+    metadata_value_layout(invoice_bytes, amt, if extra_unknown { 1 } else { 0 })
+}
+
+/// `layout`: where unknown records sit relative to the invoice (33001) and
+/// amount (33003) records and in which order these two come. The plugin looks
+/// records up by type wherever they are; so does the reference.
+///   0 plain, 1 unknown after, 2 unknown (low type) before, 3 unknown between,
+///   4 amount before invoice, 5 unknown of a higher type between (unsorted),
+///   6 unknown of a higher type first (unsorted)
+pub fn metadata_value_layout(invoice_bytes: &[u8], amt: AmtField, layout: u8) -> Vec<u8> {
+    let inv: (u64, Vec<u8>) = (33001, invoice_bytes.to_vec());
+    let amt: Option<(u64, Vec<u8>)> = match amt {
+        AmtField::Absent => None,
+        AmtField::Value(v) => Some((33003, tu64_min(v))),
+        AmtField::RawLen(n) => Some((33003, vec![if n == 0 { 0 } else { 0x01 }; n])),
+    };
+    let mut recs: Vec<(u64, Vec<u8>)> = Vec::new();
+    match layout {
+        1 => {
+            recs.push(inv);
+            recs.extend(amt);
+            recs.push((33005, vec![0xde, 0xad]));
+        }
+        2 => {
+            recs.push((1, vec![0x07]));
+            recs.push(inv);
+            recs.extend(amt);
+        }
+        3 => {
+            recs.push(inv);
+            recs.push((33002, vec![0xbe, 0xef, 0x00]));
+            recs.extend(amt);
+        }
+        4 => {
+            recs.extend(amt);
+            recs.push(inv);
+        }
+        5 => {
+            recs.push(inv);
+            recs.push((65537, vec![0x01]));
+            recs.extend(amt);
+        }
+        6 => {
+            recs.push((40001, vec![]));
+            recs.push(inv);
+            recs.extend(amt);
+        }
+        _ => {
+            recs.push(inv);
+            recs.extend(amt);
+        }
     }
     encode_tlv(&recs)
 }
@@ -562,9 +636,30 @@ pub fn malformed_metadata(rng: &mut Rng, invoice: &[u8]) -> (Vec<u8>, &'static s
     }
 }
 
+/// Valid UTF-8 of `lo..=hi` bytes mixing 1-, 2-, 3- and 4-byte characters, so
+/// that every byte offset is a character boundary in some draws and inside a
+/// character in others.
+pub fn nonascii_text(rng: &mut Rng, lo: usize, hi: usize) -> String {
+    let want = lo + rng.below((hi - lo + 1) as u64) as usize;
+    let mut s = String::new();
+    while s.len() < want {
+        s.push(*rng.pick(&['a', 'Z', '1', '\u{e9}', '\u{fc}', '\u{20ac}', '\u{4e16}', '\u{1f600}']));
+    }
+    s
+}
+
 /// Unusable-but-well-formed metadata.
 pub fn unusable_metadata(rng: &mut Rng, pool: &Pool, hash_ix: usize) -> (Vec<u8>, &'static str) {
-    match rng.below(12) {
+    match rng.below(14) {
+        12 => (
+            encode_tlv(&[(33001, nonascii_text(rng, 8, 120).into_bytes())]),
+            "meta:invoice-text-non-ascii",
+        ),
+        13 => {
+            let mut t = String::from("lnbc1");
+            t.push_str(&nonascii_text(rng, 200, 700));
+            (encode_tlv(&[(33001, t.into_bytes())]), "meta:invoice-long-text-non-ascii")
+        }
         0 => (encode_tlv(&[(33003, tu64_min(5))]), "meta:amount-only"),
         1 => (
             encode_tlv(&[(33001, vec![0xff, 0xfe, 0xfd])]),
@@ -932,7 +1027,8 @@ pub fn gen_set(content_seed: u64, set_ix: u32, cfg: &RunCfg, force_hash: Option<
                 }
             }
         }
-        let meta = metadata_value(&inv_bytes, field, r.chance(1, 10));
+        let layout = if r.chance(1, 10) { 1 + r.below(6) as u8 } else { 0 };
+        let meta = metadata_value_layout(&inv_bytes, field, layout);
         let forward = if extreme && r.chance(1, 8) {
             pick_boundary_u64(r)
         } else {
